@@ -56,6 +56,30 @@ void EvalStrExpression(const struct sStrComp* pExpr, TempResult* pErg) {
             g_case_hit = 1;
     }
 }
+#ifdef VERIF_IFEXIST
+/* IFEXIST: faithful strmaxcpy (the file name is the subject), FSearch as oracle recording the name it is asked for */
+char g_fs_name[STRINGSIZE];
+int  g_fs_calls;
+size_t strmaxcpy(char* dest, char const* src, size_t Max) {
+    size_t i = 0;
+    if (Max < 1) return 0;
+    while (i < Max - 1 && src[i]) { dest[i] = src[i]; i++; }
+    dest[i] = 0;
+    return i;
+}
+void   strmaxprep(char* s1, char const* s2, size_t Max) { (void)s1; (void)s2; (void)Max; }
+void   AddSuffix(char* s, char const* Suff) { (void)s; (void)Suff; }
+int    FSearch(char* pDest, size_t DestSize, char const* FileToSearch, char const* CurrFileName, char const* SearchPath) {
+    size_t i = 0;
+    (void)CurrFileName; (void)SearchPath;
+    if (DestSize > 0) pDest[0] = 0;
+    while (i < STRINGSIZE - 1 && FileToSearch[i]) { g_fs_name[i] = FileToSearch[i]; i++; }
+    g_fs_name[i] = 0;
+    g_fs_calls++;
+    return g_found;
+}
+#define strmaxcpy strmaxcpy_unused
+#endif
 size_t    strmaxcpy(char* dest, char const* src, size_t Max) {
     /* bounded write into the destination (ListLine is STRINGSIZE bytes); loop-free on
      * purpose: with --apply-loop-contracts every loop of a callee needs a contract */
@@ -95,6 +119,9 @@ static size_t verif_strlen(char const* p) {
 #define strlen(p) verif_strlen(p)
 #endif
 
+#ifdef VERIF_IFEXIST
+#undef strmaxcpy
+#endif
 #include "asmif.c" /* the real /repo/asmif.c */
 #undef strlen
 
@@ -410,3 +437,37 @@ void h_CodeIFs_other(void) {
     VPOST(TOP == g_o_top && IfAsm == g_o_ifasm && g_err_cnt == g_o_err, "C12: other statements leave the conditional state untouched");
     VREACH("end");
 }
+
+#ifdef VERIF_IFEXIST
+/* IFEXIST / IFNEXIST: argument of 0..3 arbitrary characters (so: with, without, with half a pair of quotes); the file
+ * search is an oracle.  Obligations: the branch is assembled iff the enclosing level is and (found xor negate); the name
+ * handed to the search is the argument without its enclosing quotes; no access outside the local buffers. */
+void h_CodeIFEXIST(void) {
+    Word neg;
+    size_t l, k;
+    char exp[4];
+    mk_state();
+    VND(neg, ushort);
+    VASSUME(neg <= 1);
+    g_fs_calls = 0;
+    g_fs_name[0] = 0;
+    { static char inc[4]; inc[0] = 0; IncludeList = inc; }
+    /* expected name */
+    l = 0;
+    while (l < 3 && argbuf[1][l]) l++;
+    k = (argbuf[1][0] == '"') ? 1 : 0;
+    { size_t n = 0; while (k < l) exp[n++] = argbuf[1][k++]; exp[n] = 0; if (n > 0 && exp[n - 1] == '"') exp[n - 1] = 0; }
+    CodeIFEXIST(neg);
+    if (g_o_ifasm && ArgCnt == 1) {
+        VPOST(g_fs_calls == 1, "C12: IFEXIST searches once");
+        VPOST(!strcmp(g_fs_name, exp), "C12: IFEXIST searches the argument without its enclosing quotes");
+        VPOST(POST_OPEN(g_o_top, g_o_ifasm, ((g_found == 0) != (neg != 0))), "C12: IFEXIST/IFNEXIST assembled iff enclosing level is and (file found) xor negate");
+        VREACH("searched");
+        if (l == 1 && argbuf[1][0] == '"') VREACH("lone quote");
+    } else {
+        VPOST(g_fs_calls == 0, "C12: IFEXIST in a skipped branch or with a wrong argument count does not touch the file system");
+        VPOST(POST_OPEN(g_o_top, g_o_ifasm, 1), "C12: IFEXIST not evaluated counts as true below the enclosing level");
+        VREACH("not evaluated");
+    }
+}
+#endif
